@@ -10,3 +10,7 @@ let desc = { fresh = en_fresh; decode = en_decode_into; serialize = None; fields
   render_panics = en_render_panics; of_spec = (fun _ -> failwith "enip: no spec"); junk_len = 0 }
 let run id ops out = run_generic desc id ops out
 let registered = Registry.register "Lenip" run
+let coq_en (l : enip) = Printf.sprintf "(mkEn %s %s %s %s %s %s %s %s %s %s)" (coq_zlist l.en_contents) (coq_zlist l.en_payload) (coq_z l.en_cmd)
+  (coq_z l.en_len) (coq_z l.en_sess) (coq_z l.en_status) (coq_zlist l.en_sctx) (coq_z l.en_opts) (coq_z l.en_cs_cmd) (coq_zlist l.en_cs_data)
+let registered_coq = Registry.register_coq "Lenip" ("From GP Require Import Base LenipModel.\n",
+  Lmidutil.to_coq_dec ~fresh_name:"en_fresh" ~dec_name:(fun _ -> "en_decode_into") ~pr:coq_en ~decode:(fun _ -> en_decode_into) ~fresh:en_fresh)
